@@ -346,6 +346,29 @@ def registry():
     for nm, mk in inv.items():
         old = R[nm]
         R[nm] = (lambda L, rk, old=old, mk=mk: old(L, rk) + [('INVALID-' + lb, a, k) for lb, a, k in mk(L, rk)])
+
+    # one-core tensors: every combination whose only array-valued positional argument is a TT-tensor is also driven with a tensor of
+    # dimension one (sweeps over bonds are then empty: "every core is re-assigned in the loop" no longer copies anything); calls that do
+    # not accept it raise and are counted as skipped
+    def is_tt(x):
+        return isinstance(x, list) and len(x) >= 2 and all(isinstance(G, np.ndarray) and G.ndim == 3 for G in x)
+
+    def with_d1(old):
+        def mk(L, rk):
+            base = old(L, rk)
+            extra, seen = [], set()
+            for lb, a, k in base:
+                if lb.startswith('INVALID-') or not a or not is_tt(a[0]) or any(isinstance(x, (list, tuple, np.ndarray)) for x in a[1:]):
+                    continue
+                key = (repr(sorted((kk, repr(vv)) for kk, vv in k.items() if not isinstance(vv, (np.ndarray, list, dict)))), len(a))
+                if key in seen or any(isinstance(vv, (np.ndarray, list)) for vv in k.values()):
+                    continue
+                seen.add(key)
+                extra.append(('d1:' + lb, [ttl([space.core('gen', 1, 4, 1, 0, 0, 93)], L)] + list(a[1:]), dict(k)))
+            return base + extra
+        return mk
+    for nm in list(R):
+        R[nm] = with_d1(R[nm])
     return R
 
 
@@ -542,6 +565,6 @@ def strata(tier, seed):
     ranks = [1, 2] if tier == 'quick' else [1, 2, 3]
     cs = [dict(fn=n, layout=L, rank=rk) for n in names for L in LAYOUTS for rk in ranks]
     pc = [dict(fn=n, order=o, rank=rk) for n in sorted(_periodic_calls()) for o in ('F', 'C') for rk in (2, 3)]
-    yield Stratum('periodic trains (one core object at several positions)', pc, 'periodic', size=len(pc), chunk=4, bounds={'orders': ['F', 'C']})
-    yield Stratum('entries x layouts x ranks', cs, 'entry', size=len(names) * len(LAYOUTS) * len(ranks), chunk=2,
+    yield Stratum('periodic trains (one core object at several positions)', pc, 'periodic', seq=True, size=len(pc), chunk=4, bounds={'orders': ['F', 'C']})
+    yield Stratum('entries x layouts x ranks', cs, 'entry', seq=True, size=len(names) * len(LAYOUTS) * len(ranks), chunk=2,
                   bounds={'functions': len(names), 'layouts': list(LAYOUTS), 'ranks': ranks})
